@@ -250,7 +250,8 @@ PROPS["C15"] = dict(
     proof_targets=["Props/C15.vo"],
     props_module="Props.C15",
     theorems=["C15_code_leaves_the_loop_when_the_cache_is_gone", "C15_code_leaves_the_loop_when_events_are_over",
-              "C15_code_watcher_lets_go_when_nobody_listens", "C15_idle_blocks", "C15_no_spin",
+              "C15_code_watcher_lets_go_when_nobody_listens", "C15_code_senders_learn_about_a_gone_reloader",
+              "C15_idle_blocks", "C15_no_spin",
               "C15_exits_after_drop", "C15_no_accumulation", "C15_old_loop_spins"],
     engines=[("loopdiff", [])],
     rule="loopdiff: idle live caches (in-memory and FileSystem sources) must show sleeping reloader "
@@ -355,15 +356,15 @@ sys_prop(
     "cached under its key.  One model serves the three front-ends; sysdiff runs the same histories through "
     "all of them.  Partial: `a failed load caches nothing under its own key` is observed by the "
     "correspondence, not proved (it needs a termination argument for self-referential scripts).",
-    ["Proofs/SysGrows.v", "Proofs/SysStatic.v", "Proofs/SysMap.v", "Tie/Graph.v", "Tie/Maps.v", "Props/C02.v"],
+    ["Proofs/SysGrows.v", "Proofs/SysStatic.v", "Proofs/SysMap.v", "Tie/Graph.v", "Tie/Maps.v", "Tie/Records.v", "Props/C02.v"],
     ["Props/C02.vo"],
     ["C02_load_only_adds", "C02_load_owned_adds_nothing_of_its_own", "C02_get_cached_and_contains_add_nothing",
      "C02_load_of_a_present_key_returns_it", "C02_successful_load_is_cached",
      "C02_get_or_insert_never_overwrites", "C02_get_or_insert_inserts_when_absent",
      "C02_remove_deletes_exactly_its_key", "C02_take_deletes_exactly_its_key_and_returns_it",
      "C02_clear_empties", "C02_code_keys_compare_type_and_id", "C02_code_maps_address_the_given_key",
-     "C02_code_keys_carry_the_id_as_given"],
-    ["Private", "Deps", "CacheMap", "LocalMap"], ["handle-changed", "key-type-confusion", "racers-disagree"],
+     "C02_code_keys_carry_the_id_as_given", "C02_code_lookup_before_load"],
+    ["Private", "Deps", "CacheMap", "LocalMap", "Anycache"], ["handle-changed", "key-type-confusion", "racers-disagree"],
     extra_engines=[("racediff", ["--parts", "reentrant"])])
 
 sys_prop(
@@ -381,7 +382,7 @@ sys_prop(
     "the empty list goes to default_value with NoDefaultValue.  Error ids/wrapping, FileContent variants, "
     "retry after repair are checked by the correspondence (traces of reads and loader calls compared verbatim).",
     ["Proofs/Load.v", "Tie/Error.v", "Tie/LoadFromSource.v", "Tie/Dirs.v", "Props/C03.v"], ["Props/C03.vo"],
-    ["C03_code_or_is_model_or", "C03_code_error_conversions_keep_the_class", "C03_or_prefers_the_higher_class",
+    ["C03_code_or_is_model_or", "C03_code_error_conversions_keep_the_class", "C03_code_load_error_names_the_asked_id", "C03_or_prefers_the_higher_class",
      "C03_code_load_from_source_is_model_up_to_3_extensions", "C03_first_readable_decodable_extension_wins",
      "C03_all_fail_highest_class_error_goes_to_default", "C03_empty_extension_list_goes_to_default", "C03_code_default_extension_list"],
     ["Error", "Asset", "Key", "Flags", "Dirs"], [], mode="cold")
@@ -401,13 +402,13 @@ sys_prop(
     "the late-binding situation really goes stale (witness = known finding D8).  L3 (the system model runs "
     "such a pass under the implementation's order, which it checks legal) is tied by correspondence, not by a "
     "theorem connecting Ref.Sys to the abstract pass: partial.",
-    ["Proofs/Dfs.v", "Proofs/Pass.v", "Tie/Graph.v", "Tie/Answers.v", "Tie/Records.v", "Props/C05.v"],
+    ["Proofs/Dfs.v", "Proofs/Pass.v", "Tie/Graph.v", "Tie/Answers.v", "Tie/Records.v", "Tie/Paths.v", "Props/C05.v"],
     ["Props/C05.vo"],
     ["C05_pass_visits_exactly_the_affected_once", "C05_dependencies_first",
      "C05_code_follows_the_dfs_and_drains_messages_first", "C05_pass_restores_consistency",
      "C05_late_binding_goes_stale", "C05_recording_as_modelled",
-     "C05_code_pass_order_is_one_reversed_post_order"],
-    ["Deps", "HotReloading", "Records", "Anycache", "Asset"], ["late-bound-stale", "stale-after-pass"], mode="hot",
+     "C05_code_pass_order_is_one_reversed_post_order", "C05_code_events_reach_the_pass"],
+    ["Deps", "HotReloading", "Records", "Anycache", "Asset", "Paths"], ["late-bound-stale", "stale-after-pass"], mode="hot",
     assumptions=["I1: a change counts as notified once the reloader has dequeued the event (settle barrier)",
                  "I2/I3: dependencies are those of the load that produced the cached value; a get_cached that "
                  "found nothing is not a trigger when the key appears later"])
@@ -428,13 +429,13 @@ sys_prop(
     "(visited set = model's reachable set; I/O traces equal).",
     ["Proofs/SysGrows.v", "Proofs/SysFrame.v", "Proofs/SysStatic.v", "Proofs/SysMap.v", "Proofs/SysReload.v",
      "Proofs/Dfs.v", "Proofs/RwProof.v", "Proofs/RwStep.v", "Proofs/RwPin.v", "Tie/Entry.v", "Tie/CallGraph.v",
-     "Tie/Graph.v", "Props/C06.v"],
+     "Tie/Graph.v", "Tie/Paths.v", "Props/C06.v"],
     ["Props/C06.vo"],
     ["C06_loads_leave_reloader_state", "C06_reload_id_moves_only_in_a_pass", "C06_reload_bumps_id_by_one",
      "C06_each_affected_asset_once", "C06_watcher_reports_growth_once",
      "C06_value_read_after_a_reported_reload_is_as_new", "C06_code_forgets_dropped_dependencies", "C06_code_visits_each_asset_once",
-     "C06_code_watcher_starts_at_the_current_id"],
-    ["Entry", "CallGraph", "Deps", "Private"],
+     "C06_code_watcher_starts_at_the_current_id", "C06_code_pass_bookkeeping"],
+    ["Entry", "CallGraph", "Deps", "Private", "Paths"],
     ["watcher", "guard-not-pinned", "changed-outside-hot_reload", "hot_reload-returned-early", "stale-after-pass"],
     mode="hot", extra_engines=[("rwdiff", [])])
 
@@ -561,15 +562,15 @@ PROPS["C01"] = dict(
                "Rust/std facts, exercised (held handle across insertions), not proved.",
     level_note="Trusted: Coq kernel+VM, rs2v, RwLock mutual exclusion (each map operation is one atomic step "
                "of the race machine), HashMap is a map.",
-    gen=["CacheMap", "LocalMap", "Private"],
+    gen=["CacheMap", "LocalMap", "Private", "Anycache"],
     model_files=["Ref/Sharded.v"],
     model_targets=["Ref/Sharded.vo"],
-    proof_files=["Proofs/Sharded.v", "Tie/Maps.v", "Tie/Graph.v", "Props/C01.v"],
+    proof_files=["Proofs/Sharded.v", "Tie/Maps.v", "Tie/Graph.v", "Tie/Records.v", "Props/C01.v"],
     proof_targets=["Props/C01.vo"],
     props_module="Props.C01",
     theorems=["C01_code_maps_as_modelled", "C01_code_keys_carry_the_id_as_given", "C01_sharded_map_is_a_map",
               "C01_or_insert_keeps_the_first",
-              "C01_race_has_one_winner_seen_by_all", "C01_presence_is_monotone"],
+              "C01_race_has_one_winner_seen_by_all", "C01_presence_is_monotone", "C01_code_lookup_before_load"],
     engines=[("racediff", [])],
     thorough_features=[["parking_lot"], ["no_ahash"]],
     rule="racediff: (a) 2/4/8/16 threads released together on one key whose loader waits until all racers "
@@ -624,7 +625,7 @@ PROPS["C04"] = dict(
     props_module="Props.C04",
     theorems=["C04_listing_is_exactly_the_direct_children", "C04_listed_entries_are_readable_under_their_id",
               "C04_read_dir_answers_exactly_for_directories", "C04_code_builds_the_modelled_index",
-              "C04_code_reads_whole_members", "C04_code_path_of_entry",
+              "C04_code_reads_whole_members", "C04_code_path_of_entry", "C04_code_parent_id",
               "C04_archive_index_answers_like_the_tree", "C04_member_order_is_irrelevant",
               "C04_implied_directory_members_are_redundant", "C04_archive_nonvacuous"],
     engines=[("srcdiff", [])],
